@@ -12,9 +12,9 @@ import os
 
 from bumble.keys import JsonKeyStore, PairingKeys
 
-from pyvc.contracts import NATIVE_UF, Bool, Callback, Const, Inst, Int, IntRange, ListOf, Opaque, contract, implies, lemma, model
+from pyvc.contracts import Bool, Callback, Const, Inst, Int, IntRange, ListOf, Opaque, Opt, contract, exists, forall, implies, lemma, model
 from pyvc import ext_c15 as X
-from pyvc.ext_c15 import AnyDyn, DynDict, SymStr, drop, frozen, is_dict, mutable, put, sole_key
+from pyvc.ext_c15 import AnyDyn, DynDict, SymStr, drop, forall_items, frozen, is_dict, mutable, put, sole_key
 
 from contracts.c15_keys import P_FROM, wf_db, wf_entry, wf_map
 
@@ -67,6 +67,10 @@ def fs_open(ghost, path, mode='r', encoding=None):
         assert crash_ok(ghost)
         return H_WRITE
     assert mode == 'r' and path.pid == ghost.real_pid
+    # an operation starts by reading the file: (exists0, content0) is the state of the real file at that moment
+    ghost.exists0 = ghost.exists
+    ghost.content0 = ghost.content
+    ghost.replaced = False
     if not ghost.exists:
         raise FileNotFoundError()
     return H_READ
@@ -162,38 +166,8 @@ FS = dict(
     exists=Bool, content=AnyDyn, dir_exists=Bool, tmp_state=IntRange(0, 3), written=AnyDyn, replaced=Bool, trace=ListOf(Int),
     exists0=Bool, content0=AnyDyn, real_pid=SymStr, real_name=SymStr, tmp_path=Inst('ghost:TmpPath'),
 )
-FS_MOD = ['ghost.exists', 'ghost.content', 'ghost.dir_exists', 'ghost.tmp_state', 'ghost.written', 'ghost.replaced', 'ghost.trace']
-
-
-def fs_pre(self, ghost):
-    return [
-        self.filename.pid == ghost.real_pid,
-        self.filename.name == ghost.real_name,
-        ghost.tmp_path.pid != ghost.real_pid,
-        # (exists0, content0): the state of the real file when the operation starts
-        ghost.exists0 == ghost.exists,
-        ghost.content0 == ghost.content,
-        not ghost.replaced,
-        implies(ghost.exists, ghost.dir_exists),
-        # of the representation invariant of the file (wf_db: a well-formed database) only the instance at the store's
-        # namespace is needed by the code; preservation of the whole invariant is lemma wf_preserved_* below
-        not ghost.exists or wf_ns(ghost.content, eff_ns(ghost.content, self.namespace)),
-    ]
-
-
-def wf_ns(db, e):
-    return is_dict(db) and (e not in db or is_dict(db[e]))
-
-
-def wf_at(g, ns, name):
-    """the entry of peer `name` in the store's namespace, if there is one, is well formed"""
-    b = base_of(g)
-    m = map_of(b, eff_ns(b, ns))
-    return name not in m or wf_entry(m[name])
-
-
-def fs_untouched(old, ghost):
-    return [ghost.exists == old.ghost.exists, ghost.content == old.ghost.content, ghost.trace == old.ghost.trace, ghost.dir_exists == old.ghost.dir_exists]
+TX_MOD = ['ghost.exists0', 'ghost.content0', 'ghost.replaced']  # set when an operation starts (the read)
+FS_MOD = TX_MOD + ['ghost.exists', 'ghost.content', 'ghost.dir_exists', 'ghost.tmp_state', 'ghost.written', 'ghost.trace']
 
 
 # ---------------------------------------------------------------------------
@@ -214,6 +188,61 @@ def map_of(db, e):
     return db[e] if e in db else {}
 
 
+def view_of(g, ns):
+    """peer -> entry, as the store with namespace `ns` sees it"""
+    b = base_of(g)
+    return map_of(b, eff_ns(b, ns))
+
+
+def updated(b, e, name, kd):
+    return put(b, e, put(map_of(b, e), name, kd))
+
+
+def deleted(b, e, name):
+    return put(b, e, drop(map_of(b, e), name))
+
+
+def cleared(b, e):
+    return put(b, e, {})
+
+
+def wf_ns(db, e):
+    return is_dict(db) and (e not in db or is_dict(db[e]))
+
+
+def fs_paths(self, ghost):
+    return [
+        self.filename.pid == ghost.real_pid,
+        self.filename.name == ghost.real_name,
+        ghost.tmp_path.pid != ghost.real_pid,
+        implies(ghost.exists, ghost.dir_exists),
+    ]
+
+
+def fs_tx(ghost):
+    """(exists0, content0) is the state of the real file when the operation started, and nothing replaced it since"""
+    return [ghost.exists0 == ghost.exists, ghost.content0 == ghost.content, not ghost.replaced]
+
+
+def store_pre(self, ghost):
+    # of the representation invariant of the file (wf_db: a well-formed database) only the instance at the store's
+    # namespace is needed by the code; that the whole invariant is preserved is lemma wf_preserved below
+    return fs_paths(self, ghost) + [not ghost.exists or wf_ns(ghost.content, eff_ns(ghost.content, self.namespace))]
+
+
+def wf_at(g, ns, name):
+    """the entry of peer `name` in the store's namespace, if there is one, is well formed"""
+    m = view_of(g, ns)
+    return name not in m or wf_entry(m[name])
+
+
+def fs_untouched(old, ghost):
+    return [ghost.exists == old.ghost.exists, ghost.content == old.ghost.content, ghost.trace == old.ghost.trace, ghost.dir_exists == old.ghost.dir_exists]
+
+
+UNTOUCHED = ['file-exists-unchanged', 'content-unchanged', 'no-effects', 'dir-unchanged']
+
+
 # ---------------------------------------------------------------------------
 # save
 # ---------------------------------------------------------------------------
@@ -226,15 +255,16 @@ contract(
     prop='C15',
     params=dict(self=STORE, db=AnyDyn),
     ghost=FS,
-    requires=lambda self, ghost: fs_pre(self, ghost),
+    requires=lambda self, ghost: fs_paths(self, ghost) + fs_tx(ghost),
     ensures=lambda self, db, old, ghost: [
         ghost.exists and ghost.content == db,
         ghost.replaced and ghost.written == db,
         implies(old.ghost.dir_exists, ghost.trace == old.ghost.trace + save_trace()),
         implies(not old.ghost.dir_exists, ghost.trace == old.ghost.trace + [EV_MKDIR] + save_trace()),
         ghost.dir_exists and ghost.tmp_state == 0,
+        ghost.exists0 == old.ghost.exists0 and ghost.content0 == old.ghost.content0,
     ],
-    ensures_names=['file-holds-the-new-document', 'via-the-temporary-file', 'effects-open-write-close-replace', 'effects-mkdir-first', 'directory-exists-no-temporary-left'],
+    ensures_names=['file-holds-the-new-document', 'via-the-temporary-file', 'effects-open-write-close-replace', 'effects-mkdir-first', 'directory-exists-no-temporary-left', 'tx-start-kept'],
     modifies=FS_MOD,
     **FSKW,
 )
@@ -255,15 +285,15 @@ contract(
     prop='C15',
     params=dict(self=STORE),
     ghost=FS,
-    requires=lambda self, ghost: fs_pre(self, ghost),
+    requires=lambda self, ghost: store_pre(self, ghost),
     ensures=lambda self, res, old, ghost: [
         is_dict(res[0]) and res[0] == loaded_db(old.ghost, self.namespace),
         # the key map is the namespace's dict *inside* db (so that mutating it reaches what save(db) writes)
         is_dict(res[0]) and res[1] is res[0][eff_ns(base_of(old.ghost), self.namespace)],
     ]
     + fs_untouched(old, ghost),
-    ensures_names=['db-is-the-parsed-file-plus-the-namespace', 'key-map-is-the-namespace-dict-inside-db', 'file-exists-unchanged', 'content-unchanged', 'no-effects', 'dir-unchanged'],
-    modifies=[],
+    ensures_names=['db-is-the-parsed-file-plus-the-namespace', 'key-map-is-the-namespace-dict-inside-db'] + UNTOUCHED,
+    modifies=TX_MOD,
     **FSKW,
 )
 LOAD_INLINE = ['JsonKeyStore.load']
@@ -279,12 +309,6 @@ def keys_to_dict(ghost):
 model('ghost:Keys', fields={}, methods={'to_dict': Callback('to_dict', effect=keys_to_dict)})
 
 
-def updated(g, ns, name, kd):
-    b = base_of(g)
-    e = eff_ns(b, ns)
-    return put(b, e, put(map_of(b, e), name, kd))
-
-
 def mutation_post(new, old, ghost):
     return [
         ghost.exists and ghost.content == new,
@@ -292,10 +316,11 @@ def mutation_post(new, old, ghost):
         ghost.replaced and ghost.written == new,
         implies(old.ghost.dir_exists, ghost.trace == old.ghost.trace + save_trace()),
         implies(not old.ghost.dir_exists, ghost.trace == old.ghost.trace + [EV_MKDIR] + save_trace()),
+        ghost.dir_exists and ghost.tmp_state == 0,
     ]
 
 
-MUT_NAMES = ['file-holds-exactly-the-new-database', 'file-is-a-json-object', 'written-through-the-temporary-file', 'effects', 'effects-mkdir-first']
+MUT_NAMES = ['file-holds-exactly-the-new-database', 'file-is-a-json-object', 'written-through-the-temporary-file', 'effects', 'effects-mkdir-first', 'directory-exists-no-temporary-left']
 
 
 def update_post(self, name, old, ghost):
@@ -306,7 +331,7 @@ def update_post(self, name, old, ghost):
         is_dict(c) and e in c and is_dict(c[e]) and name in c[e] and c[e][name] == ghost.kd,
         is_dict(c) and e in c and is_dict(c[e]) and drop(c[e], name) == drop(map_of(b, e), name),
         is_dict(c) and drop(c, e) == drop(b, e),
-    ] + mutation_post(updated(old.ghost, self.namespace, name, ghost.kd), old, ghost)
+    ] + mutation_post(updated(b, e, name, ghost.kd), old, ghost)
 
 
 contract(
@@ -314,7 +339,7 @@ contract(
     prop='C15',
     params=dict(self=STORE, name=SymStr, keys=Inst('ghost:Keys')),
     ghost=dict(FS, kd=DynDict),
-    requires=lambda self, name, ghost: fs_pre(self, ghost) + [wf_at(ghost, self.namespace, name), wf_entry(ghost.kd)],
+    requires=lambda self, name, ghost: store_pre(self, ghost) + [wf_at(ghost, self.namespace, name), wf_entry(ghost.kd)],
     ensures=update_post,
     ensures_names=['entry-is-exactly-the-given-keys', 'other-peers-of-the-namespace-unchanged', 'other-namespaces-unchanged'] + MUT_NAMES,
     modifies=FS_MOD,
@@ -322,12 +347,7 @@ contract(
     uses=[SAVE],
     **FSKW,
 )
-
-
-def deleted(g, ns, name):
-    b = base_of(g)
-    e = eff_ns(b, ns)
-    return put(b, e, drop(map_of(b, e), name))
+UPDATE = 'bumble.keys:JsonKeyStore.update'
 
 
 def delete_post(self, name, old, ghost):
@@ -338,7 +358,7 @@ def delete_post(self, name, old, ghost):
         is_dict(c) and e in c and is_dict(c[e]) and name not in c[e],
         is_dict(c) and e in c and is_dict(c[e]) and drop(c[e], name) == drop(map_of(b, e), name),
         is_dict(c) and drop(c, e) == drop(b, e),
-    ] + mutation_post(deleted(old.ghost, self.namespace, name), old, ghost)
+    ] + mutation_post(deleted(b, e, name), old, ghost)
 
 
 contract(
@@ -346,21 +366,17 @@ contract(
     prop='C15',
     params=dict(self=STORE, name=SymStr),
     ghost=FS,
-    requires=lambda self, name, ghost: fs_pre(self, ghost) + [wf_at(ghost, self.namespace, name)],
+    requires=lambda self, name, ghost: store_pre(self, ghost),
     ensures=delete_post,
     ensures_names=['entry-is-gone', 'other-peers-of-the-namespace-unchanged', 'other-namespaces-unchanged'] + MUT_NAMES,
     # deleting a peer that is not there: KeyError, and nothing at all happened to the file
-    raises={KeyError: lambda self, name, old, ghost: [name not in map_of(base_of(old.ghost), eff_ns(base_of(old.ghost), self.namespace))] + fs_untouched(old, ghost)},
+    raises={KeyError: lambda self, name, old, ghost: [name not in view_of(old.ghost, self.namespace)] + fs_untouched(old, ghost)},
     modifies=FS_MOD,
     inline=LOAD_INLINE,
     uses=[SAVE],
     **FSKW,
 )
-
-
-def cleared(g, ns):
-    b = base_of(g)
-    return put(b, eff_ns(b, ns), {})
+DELETE = 'bumble.keys:JsonKeyStore.delete'
 
 
 def delete_all_post(self, old, ghost):
@@ -370,7 +386,7 @@ def delete_all_post(self, old, ghost):
     return [
         is_dict(c) and e in c and c[e] == {},
         is_dict(c) and drop(c, e) == drop(b, e),
-    ] + mutation_post(cleared(old.ghost, self.namespace), old, ghost)
+    ] + mutation_post(cleared(b, e), old, ghost)
 
 
 contract(
@@ -378,7 +394,7 @@ contract(
     prop='C15',
     params=dict(self=STORE),
     ghost=FS,
-    requires=lambda self, ghost: fs_pre(self, ghost),
+    requires=lambda self, ghost: store_pre(self, ghost),
     ensures=delete_all_post,
     ensures_names=['namespace-is-empty', 'other-namespaces-unchanged'] + MUT_NAMES,
     modifies=FS_MOD,
@@ -386,10 +402,11 @@ contract(
     uses=[SAVE],
     **FSKW,
 )
+DELETE_ALL = 'bumble.keys:JsonKeyStore.delete_all'
 
 
 # ---------------------------------------------------------------------------
-# get
+# get / get_all
 # ---------------------------------------------------------------------------
 def keys_of(entry):
     """the key set an entry denotes: PairingKeys.from_dict is a function of the *value* of its argument (contract
@@ -398,22 +415,21 @@ def keys_of(entry):
 
 
 X.register_uf(keys_of, 'pairing_keys')
+PK = Opaque('pairing_keys')
 
 contract(
     'bumble.keys:PairingKeys.from_dict',
     key=P_FROM + '@value',
     params=dict(cls=Const(PairingKeys), keys_dict=DynDict),
     requires=lambda keys_dict: [wf_entry(keys_dict)],
-    returns=Opaque('pairing_keys'),
-    ensures=lambda keys_dict, res: [res == keys_of(keys_dict)],
+    result=lambda keys_dict: keys_of(keys_dict),
     modifies=[],
     note='callee view: weakening of the verified contract of PairingKeys.from_dict (result == spec_keys_of(keys_dict)): only "a function of the value of the argument" is kept',
 )
 
 
 def get_post(self, name, res, old, ghost):
-    b = base_of(old.ghost)
-    m = map_of(b, eff_ns(b, self.namespace))
+    m = view_of(old.ghost, self.namespace)
     return [(res is None) == (name not in m), name not in m or res == keys_of(m[name])] + fs_untouched(old, ghost)
 
 
@@ -422,11 +438,170 @@ contract(
     prop='C15',
     params=dict(self=STORE, name=SymStr),
     ghost=FS,
-    requires=lambda self, name, ghost: fs_pre(self, ghost) + [wf_at(ghost, self.namespace, name)],
+    requires=lambda self, name, ghost: store_pre(self, ghost) + [wf_at(ghost, self.namespace, name)],
     ensures=get_post,
-    ensures_names=['none-iff-no-entry', 'keys-of-the-stored-entry', 'file-exists-unchanged', 'content-unchanged', 'no-effects', 'dir-unchanged'],
-    modifies=[],
+    ensures_names=['none-iff-no-entry', 'keys-of-the-stored-entry'] + UNTOUCHED,
+    returns=Opt(PK),
+    modifies=TX_MOD,
     inline=LOAD_INLINE,
     uses=[P_FROM + '@value'],
     **FSKW,
 )
+GET = 'bumble.keys:JsonKeyStore.get'
+
+
+def wf_view(g, ns):
+    """every entry of the store's namespace is well formed (instance of the file invariant wf_db at that namespace)"""
+    return forall_items(view_of(g, ns), lambda name, e: wf_entry(e))
+
+
+def occurs(res, name):
+    return exists(0, len(res), lambda i: res[i][0] == name) if len(res) > 0 else False
+
+
+def get_all_post(self, res, old, ghost):
+    m = view_of(old.ghost, self.namespace)
+    return [
+        len(res) == len(m),
+        # every pair is a peer of the namespace with the keys of its entry ...
+        len(res) == 0 or forall(0, len(res), lambda i: res[i][0] in m and res[i][1] == keys_of(m[res[i][0]])),
+        # ... no peer twice, and no peer missing
+        len(res) == 0 or forall(0, len(res), lambda i: forall(0, i, lambda j: res[j][0] != res[i][0])),
+        forall_items(m, lambda name, e: occurs(res, name)),
+    ] + fs_untouched(old, ghost)
+
+
+contract(
+    'bumble.keys:JsonKeyStore.get_all',
+    prop='C15',
+    params=dict(self=STORE),
+    ghost=FS,
+    requires=lambda self, ghost: store_pre(self, ghost) + [wf_view(ghost, self.namespace)],
+    ensures=get_all_post,
+    ensures_names=['one-pair-per-peer-count', 'pairs-are-peers-with-their-keys', 'no-peer-twice', 'no-peer-missing'] + UNTOUCHED,
+    modifies=TX_MOD,
+    inline=LOAD_INLINE,
+    uses=[P_FROM + '@value'],
+    **FSKW,
+)
+
+
+# ---------------------------------------------------------------------------
+# lemmas over the contracts: invariant of the file, history exactness, persistence, namespace isolation
+# ---------------------------------------------------------------------------
+def lemma_nothing(b, e, ns, name, kd):
+    pass
+
+
+# the three abstract mutations keep the file a well-formed database (for every namespace e they are applied to); together
+# with `file-holds-exactly-the-new-database` of update / delete / delete_all: wf_db is an invariant of the file
+lemma('wf_preserved', lemma_nothing, prop='C15', params=dict(b=DynDict, e=SymStr, ns=SymStr, name=SymStr, kd=DynDict),
+      requires=lambda b, kd: [wf_db(b), wf_entry(kd)],
+      ensures=lambda b, e, name, kd: [wf_db({}), wf_db(updated(b, e, name, kd)), wf_db(deleted(b, e, name)), wf_db(cleared(b, e))],
+      ensures_names=['empty-database', 'update', 'delete', 'delete_all'])
+
+# what the operation contracts require of the file is an instance of the invariant wf_db
+lemma('wf_instances', lemma_nothing, prop='C15', params=dict(b=DynDict, e=SymStr, ns=SymStr, name=SymStr, kd=DynDict),
+      requires=lambda b: [wf_db(b)],
+      ensures=lambda b, ns, name: [
+          wf_ns(b, eff_ns(b, ns)),
+          name not in map_of(b, eff_ns(b, ns)) or wf_entry(map_of(b, eff_ns(b, ns))[name]),
+          forall_items(map_of(b, eff_ns(b, ns)), lambda n, x: wf_entry(x)),
+      ],
+      ensures_names=['namespace-is-a-dict', 'entry-well-formed', 'all-entries-well-formed'])
+
+OPS = [UPDATE, DELETE, DELETE_ALL, GET]
+
+
+def fs_lemma(name, fn, **kw):
+    """a lemma over store objects: its native replay runs on the fake file system too"""
+    l = lemma(name, fn, prop='C15', uses=OPS, native_patches=FSKW['native_patches'], **kw)
+    l.native_setup = native_fs
+    return l
+
+
+def two_stores_pre(a, b, name, other, ghost):
+    """two store objects on the same file; of the file invariant the instances at the places the lemma looks at"""
+    return store_pre(a, ghost) + store_pre(b, ghost) + [
+        wf_at(ghost, a.namespace, name), wf_at(ghost, a.namespace, other), wf_at(ghost, b.namespace, name), wf_at(ghost, b.namespace, other),
+        wf_entry(ghost.kd),
+    ]
+
+
+async def lemma_update_then_get(a, b, name, other, keys):
+    """exactness + persistence: after update(name, keys) any store object on the same file with the same namespace
+    (the same instance, or one created later: "re-opening") returns the keys of exactly the stored entry for `name`
+    and what it returned before for every other peer"""
+    before = await b.get(other)
+    await a.update(name, keys)
+    assert (await b.get(name)) == keys_of(kd_of(keys))
+    assert (await b.get(other)) == before
+
+
+def kd_of(keys):
+    return keys.to_dict()
+
+
+fs_lemma('update_then_get', lemma_update_then_get,
+      params=dict(a=STORE, b=STORE, name=SymStr, other=SymStr, keys=Inst('ghost:Keys')), ghost=dict(FS, kd=DynDict),
+      requires=lambda a, b, name, other, ghost: two_stores_pre(a, b, name, other, ghost) + [a.namespace == b.namespace, other != name],
+      inline=['kd_of'])
+
+
+async def lemma_delete_then_get(a, b, name, other):
+    before = await b.get(other)
+    await a.delete(name)
+    assert (await b.get(name)) is None
+    assert (await b.get(other)) == before
+
+
+fs_lemma('delete_then_get', lemma_delete_then_get,
+      params=dict(a=STORE, b=STORE, name=SymStr, other=SymStr), ghost=dict(FS, kd=DynDict),
+      requires=lambda a, b, name, other, ghost: two_stores_pre(a, b, name, other, ghost) + [a.namespace == b.namespace, other != name, name in view_of(ghost, a.namespace)])
+
+
+async def lemma_delete_all_then_get(a, b, other):
+    await a.delete_all()
+    assert (await b.get(other)) is None
+
+
+fs_lemma('delete_all_then_get', lemma_delete_all_then_get,
+      params=dict(a=STORE, b=STORE, other=SymStr), ghost=dict(FS, kd=DynDict),
+      requires=lambda a, b, other, ghost: two_stores_pre(a, b, other, other, ghost) + [a.namespace == b.namespace])
+
+
+def explicit(s, ghost):
+    """the store's namespace does not depend on what else is in the file: it was given explicitly, or the file already has
+    a "__DEFAULT__" namespace"""
+    return s.namespace != DEFAULT or DEFAULT in base_of(ghost)
+
+
+async def lemma_isolation(a, b, name, other, keys):
+    """namespace isolation: whatever a store does in its namespace, a store with another namespace sees no change"""
+    before = await b.get(other)
+    await a.update(name, keys)
+    assert (await b.get(other)) == before
+    await a.delete_all()
+    assert (await b.get(other)) == before
+
+
+fs_lemma('isolation', lemma_isolation,
+      params=dict(a=STORE, b=STORE, name=SymStr, other=SymStr, keys=Inst('ghost:Keys')), ghost=dict(FS, kd=DynDict),
+      requires=lambda a, b, name, other, ghost: two_stores_pre(a, b, name, other, ghost)
+      + [eff_ns(base_of(ghost), a.namespace) != eff_ns(base_of(ghost), b.namespace), explicit(b, ghost)])
+
+
+async def lemma_default_alias(a, b, name, other, keys):
+    """the same for a store created *without* a namespace (namespace "__DEFAULT__", adopting the only namespace of the
+    file): NOT true -- when another store adds a second namespace, the default store stops seeing the namespace it has
+    been reading and writing (documented in the class docstring; see notes/C15/NOTES.md, finding)"""
+    before = await b.get(other)
+    await a.update(name, keys)
+    return (before, await b.get(other))
+
+
+fs_lemma('isolation_default_namespace', lemma_default_alias, ensures=lambda res: [res[0] == res[1]],
+           params=dict(a=STORE, b=STORE, name=SymStr, other=SymStr, keys=Inst('ghost:Keys')), ghost=dict(FS, kd=DynDict),
+           requires=lambda a, b, name, other, ghost: two_stores_pre(a, b, name, other, ghost)
+           + [eff_ns(base_of(ghost), a.namespace) != eff_ns(base_of(ghost), b.namespace), b.namespace == DEFAULT],
+           )
